@@ -1061,6 +1061,11 @@ class Client:
             builder.content_type = None
             builder.content_length = None
             builder.headers.pop("Transfer-Encoding", None)
+        elif builder.input_stream is not None:
+            # The application may have read the body. Rewind the stream to
+            # where the body started so that all of it is sent again.
+            end = builder.input_stream.seek(0, 2)
+            builder.input_stream.seek(end - (builder.content_length or 0))
 
         return self.open(builder, buffered=buffered)
 
